@@ -64,10 +64,21 @@ def _enum_init(modname):
     _EMOD = importlib.import_module(modname)
 
 
+ENUM_SHARD_WALL_LIMIT = 1800      # seconds of wall time for one shard of an enumeration (they take seconds to minutes)
+
+
 def _enum_shard(args):
     shard, tier = args
+    from vt.watchdog import limit, Hang
     try:
-        return _EMOD.run_shard(shard, tier)
+        with limit(ENUM_SHARD_WALL_LIMIT):
+            return _EMOD.run_shard(shard, tier)
+    except Hang as h:
+        r = EnumResult()
+        r.fail('HARNESS.real_blocking_call', 'the shard did not return within %ds of wall time; the daemon code was at %s'
+               % (ENUM_SHARD_WALL_LIMIT, h.where), 'blocked-for-real@' + (h.where.split(' <- ')[0] if h.where else '?'),
+               {'shard': repr(shard)})
+        return r
     except Exception:
         r = EnumResult()
         r.fail('HARNESS.crash', traceback.format_exc()[-2000:], 'harness', {'shard': repr(shard)})
